@@ -32,7 +32,7 @@ class Prop(BaseProp):
             "filter_by_spike_sync / spike_sync(interval) must have a spike of another train closer than max_tau; "
             "None and 0 give identical results; enlarging max_tau never removes a coincidence; plus the hook-level "
             "contract get_tau <= limit/2 on every window evaluation. distinct = (interleaving word, max_tau regime)")
-    budget = {"quick": 800, "thorough": 20000}
+    budget = {"quick": 800, "thorough": 60000}
     must_see = ["candidate_window_exceeds_max_tau", "none_vs_zero_checked", "monotone_checked", "filter_checked",
                 "interval_checked", "mrts_gt_2max_tau", "multivariate_checked", "tie_distance_equals_max_tau"]
     must_contracts = ["post:get_tau"]
